@@ -1,7 +1,7 @@
 (* C11 — conditional compilation selects exactly the branches C semantics select.
    Property theorems only. *)
 From Coq Require Import List NArith Bool String Lia.
-From RV Require Import Cond CondProofs CondParserProofs GenCond.
+From RV Require Import Cond CondProofs CondParserProofs GenCond CondIncl CondInclProofs.
 Import ListNotations.
 
 (* ---- table obligations (regenerated from the source on every run) ---- *)
@@ -65,9 +65,83 @@ Proof. vm_compute. reflexivity. Qed.
 Example C11_example_wf : wf_items ex_tree.
 Proof. cbn. tauto. Qed.
 
+(* ==== #include, #pragma and unknown directives (CondIncl.v) ==== *)
+
+(* ---- every switch table, every condition evaluator (failing ones included), every include handler, every
+        depth budget: the lines of a group that is not selected — text, #define, #undef, #include of present and
+        missing files, #pragma once, unknown pragmas, unknown directives, whole nested conditionals with
+        malformed conditions — leave the macro table, the output, the once-set and the chain exactly as they were,
+        and raise no diagnostic ---- *)
+Theorem C11_skipped_group_has_no_effect :
+  forall switch evalc files d self body rest (stk : list cstate) (e : env) (o : list otok) (once : list string),
+    is_active stk = false -> xgroup 0 body = true ->
+    xrun switch evalc files d self (body ++ rest) (mkX (mkP stk e o) once) =
+    xrun switch evalc files d self rest (mkX (mkP stk e o) once).
+Proof. exact skipped_group_has_no_effect. Qed.
+
+(* ---- a conditional whose condition is false (or which is itself skipped), at any nesting, with any lines inside ---- *)
+Theorem C11_false_conditional_has_no_effect :
+  forall switch evalc files d self c body rest st,
+    (is_active (p_stack (x_p st)) = true -> evalc (p_env (x_p st)) c = inl false) ->
+    xgroup 0 body = true ->
+    xrun switch evalc files d self (XL (LIf c) :: body ++ XL LEndif :: rest) st = xrun switch evalc files d self rest st.
+Proof. exact false_conditional_has_no_effect. Qed.
+
+(* ---- without the new lines CondIncl.v is Cond.v, so the theorems above it carry over ---- *)
+Theorem C11_include_model_is_conservative :
+  forall switch evalc files d self ls st,
+    xrun switch evalc files d self (map XL ls) st =
+    match run switch evalc (x_p st) ls with inl p => inl (mkX p (x_once st)) | inr e => inr (XE e) end.
+Proof. exact xrun_conservative. Qed.
+
+(* ---- an included file is its lines in place: the condition chain runs across the file boundary ---- *)
+Theorem C11_include_is_paste_under_conditionals :
+  forall switch evalc files d self f body rest st st1,
+    files f = Some body -> marked st f = false -> no_once body = true ->
+    is_active (p_stack (x_p st)) = true ->
+    xrun switch evalc files d f body st = inl st1 ->
+    xrun switch evalc files (S d) self (XInclude f :: rest) st = xrun switch evalc files (S d) self (body ++ rest) st.
+Proof. exact include_is_paste_under_conditionals. Qed.
+
+Theorem C11_include_depth_pinned : max_include_depth = 200%nat.
+Proof. reflexivity. Qed.
+
+(* non-vacuity: a skipped group full of directives that would be rejected outside it; a chain closed by the includer *)
+Definition ex_skipped : list xline :=
+  [XInclude "missing.h"; XPragmaOther; XUnknown; XPragmaOnce; XL (LDefine "A" (Some 1%N));
+   XL (LIf [KOther]); XL (LText 1); XL (LElif [KOther; KOther]); XInclude "missing.h"; XL LElse; XL LEndif].
+Example C11_skipped_example_group : xgroup 0 ex_skipped = true.
+Proof. reflexivity. Qed.
+
+Definition ex_files (f : string) : option (list xline) :=
+  if String.eqb f "main.rssl" then
+    Some ([XL (LIf [KNum 0])] ++ ex_skipped ++
+          [XL LEndif; XInclude "a.h"; XL (LText 2); XL LEndif; XInclude "a.h"; XL (LUse "A")])
+  else if String.eqb f "a.h" then
+    Some [XL (LIfdef "G"); XPragmaOnce; XL LElse; XL (LDefine "G" None); XL LEndif; XL (LText 9); XL (LIf [KNum 1])]
+  else None.
+Example C11_include_example :
+  xrun_file switch eval_cond ex_files max_include_depth "main.rssl" [] =
+  inr (XE ConditionChainNotFinished).
+Proof. vm_compute. reflexivity. Qed.
+Definition ex_files2 (f : string) : option (list xline) :=
+  if String.eqb f "main.rssl" then
+    Some ([XL (LIf [KNum 0])] ++ ex_skipped ++
+          [XL LEndif; XInclude "a.h"; XL (LText 2); XL LEndif; XInclude "a.h"; XL LEndif; XInclude "a.h"; XL (LUse "A")])
+  else ex_files f.
+Example C11_include_example2 :
+  xrun_file switch eval_cond ex_files2 max_include_depth "main.rssl" [] =
+  inl ([("G"%string, None)], [OText 9; OText 2; OText 9; OId "A"]).
+Proof. vm_compute. reflexivity. Qed.
+
 Print Assumptions C11_switch_table.
 Print Assumptions C11_apply_table.
 Print Assumptions C11_level_table.
 Print Assumptions C11_selects_C_groups.
 Print Assumptions C11_reject_unbalanced.
 Print Assumptions C11_cond_parser_correct.
+Print Assumptions C11_skipped_group_has_no_effect.
+Print Assumptions C11_false_conditional_has_no_effect.
+Print Assumptions C11_include_model_is_conservative.
+Print Assumptions C11_include_is_paste_under_conditionals.
+Print Assumptions C11_include_depth_pinned.
